@@ -9,7 +9,7 @@ func checkC09(e *RunEnv) *CheckResult {
 		// quick: a smaller edit alphabet (the name sweep below covers the sibling names)
 		paths = []string{"d/x", "d/y", "ad/x", "a(b", "g", "n", "d/s/t/u", "big"}
 	}
-	args := []string{"d/x", "d/y", "ad/x", "d.c", "a(b", "g", "d0", "n", "big", "d", "ad", "d/s", "d/s/t", "nope", "d/nope", "d/", "./d", "d/.", "./g", "d//x"}
+	args := []string{".", "@ROOT@/d/x", "@ROOT@/d", "../root/g", "d/x", "d/y", "ad/x", "d.c", "a(b", "g", "d0", "n", "big", "d", "ad", "d/s", "d/s/t", "nope", "d/nope", "d/", "./d", "d/.", "./g", "d//x"}
 	pairs := [][]string{{"d/x", "ad/x"}, {"d", "g"}, {"g", "nope"}, {"nope", "g"}, {"g", "n"}, {"d/y", "d"}, {"d/n2", "d"}, {"d/s", "d"}}
 	var base []Step
 	base = append(base, seedS0()...)
